@@ -39,9 +39,10 @@ type c13SchemaW struct {
 func c13LeanStr(s string) string { return fmt.Sprintf("%q", s) }
 
 type c13FieldW struct {
-	key string
-	t   reflect.Type
-	v   reflect.Value // may be invalid (below a nil pointer)
+	key  string
+	t    reflect.Type
+	v    reflect.Value // may be invalid (below a nil pointer)
+	omit bool          // tagged `omitempty`
 }
 
 // fields lists the accepted keys of a struct level, squashed structs inlined.
@@ -81,7 +82,13 @@ func (w *c13SchemaW) fields(t reflect.Type, v reflect.Value, path []string) []c1
 		if f.Type.Kind() == reflect.Func || f.Type.Kind() == reflect.Chan {
 			continue
 		}
-		out = append(out, c13FieldW{key, f.Type, fv})
+		omit := false
+		for _, p := range parts[1:] {
+			if p == "omitempty" {
+				omit = true
+			}
+		}
+		out = append(out, c13FieldW{key, f.Type, fv, omit})
 	}
 	return out
 }
@@ -161,6 +168,50 @@ func c13LeafPaths(t reflect.Type, path []string, depth int, out map[string]bool)
 	for _, f := range w.fields(t, reflect.Value{}, path) {
 		c13LeafPaths(f.t, append(append([]string{}, path...), f.key), depth+1, out)
 	}
+}
+
+// c13OmitPaths: leaf positions whose field is tagged `omitempty` (the encoder leaves them out when they hold the zero value)
+func c13OmitPaths(t reflect.Type, path []string, depth int, omit bool, out map[string]bool) {
+	for t.Kind() == reflect.Pointer && t != c13OpaqueT {
+		t = t.Elem()
+	}
+	if t.Kind() != reflect.Struct || reflect.PointerTo(t).Implements(c13TextUnm) || depth > 12 {
+		if omit {
+			out[strings.Join(path, "::")] = true
+		}
+		return
+	}
+	w := &c13SchemaW{}
+	for _, f := range w.fields(t, reflect.Value{}, path) {
+		c13OmitPaths(f.t, append(append([]string{}, path...), f.key), depth+1, f.omit, out)
+	}
+}
+
+// c13FieldAt navigates a typed configuration by key path (mapstructure keys, squash inlined, pointers followed).
+// Returns the zero Value when the path leaves the value (nil optional on the way, unknown key).
+func c13FieldAt(v reflect.Value, path []string) reflect.Value {
+	for v.IsValid() && (v.Kind() == reflect.Pointer || v.Kind() == reflect.Interface) && v.Type() != c13OpaqueT {
+		if v.IsNil() {
+			return reflect.Value{}
+		}
+		v = v.Elem()
+	}
+	if len(path) == 0 || !v.IsValid() {
+		return v
+	}
+	if v.Kind() != reflect.Struct {
+		return reflect.Value{}
+	}
+	w := &c13SchemaW{}
+	for _, f := range w.fields(v.Type(), v, nil) {
+		if f.key == path[0] {
+			if len(path) == 1 {
+				return f.v
+			}
+			return c13FieldAt(f.v, path[1:])
+		}
+	}
+	return reflect.Value{}
 }
 
 func TestVerifC13Schema(t *testing.T) {
